@@ -10,6 +10,14 @@ Open Scope list_scope.
 (* ---------------------------------------------------------------------------------------- *)
 Lemma code_flags : cbo_imports_unaliased = true /\ cbo_excludes_self = true /\ members_reached = true /\ cbo_walk_never_pruned = true.
 Proof. repeat split; reflexivity. Qed.
+(* extractClassName reads Attribute / Subscript nodes through Value / Name, as ast_builder.go fills them *)
+Lemma code_reads_value_field : cbo_reads_value_field = true.
+Proof. reflexivity. Qed.
+(* no built-in name of cbo.go's tables contains a dot: a dotted name "mod.X" is never filtered as a built-in
+   (Class/CBO.v:should_include_ref) *)
+Definition has_dot (s : string) : bool := match index 0 "." s with Some _ => true | None => false end.
+Lemma builtin_tables_undotted : forallb (fun s => negb (has_dot s)) (cbo_builtin_types ++ cbo_builtin_functions) = true.
+Proof. vm_compute. reflexivity. Qed.
 
 (* every position that can hold an instantiation is visited by walkNode *)
 Lemma expr_positions_reached : forall p, is_store_target p = false -> reached cbo_walk_fields 0 p [] = true.
@@ -31,18 +39,19 @@ Proof.
 Qed.
 
 (* ---------------------------------------------------------------------------------------- *)
-(* exactness on classes without module-qualified references                                   *)
+(* exactness: every reference form (X, mod.X), every annotation shape, every position          *)
 (* ---------------------------------------------------------------------------------------- *)
-Definition ref_ok (r : cref) : Prop := is_plain r = true /\ snd r <> 0.
+(* identifiers are not empty *)
+Definition ref_ok (r : cref) : Prop := snd r <> 0.
 
 Definition class_mentions (c : class) : list mention := flat_map member_mentions (c_members c).
 Definition class_refs (c : class) : list cref :=
   c_bases c ++ flat_map ty_refs (flat_map member_annotations (c_members c)) ++ flat_map instantiated (class_mentions c).
-(* no reference of the form mod.X (and no empty name) *)
-Definition plain_class (c : class) : Prop := Forall ref_ok (class_refs c).
-(* instantiations are written in expression positions (X() = 1 is not Python) *)
+(* well-formedness of the syntax: no reference with an empty class name *)
+Definition named_class (c : class) : Prop := Forall ref_ok (class_refs c).
+(* calls are written in expression positions (X() = 1 is not Python) *)
 Definition inst_positions_ok (c : class) : Prop :=
-  Forall (fun m => match m_kind m with KInst _ => is_store_target (m_pos m) = false | _ => True end) (class_mentions c).
+  Forall (fun m => match m_kind m with KAttr _ _ => True | _ => is_store_target (m_pos m) = false end) (class_mentions c).
 
 Lemma plain_eq : forall r, is_plain r = true -> Plain (snd r) = r.
 Proof. intros [a b]; unfold is_plain, Plain; simpl; intros H; apply N.eqb_eq in H; subst; reflexivity. Qed.
@@ -55,55 +64,35 @@ Proof.
   destruct (builtin_function n), (builtin_type n); reflexivity.
 Qed.
 
+Lemma extract_class_name_ok : forall r, ref_ok r -> extract_class_name r = Some r.
+Proof.
+  intros r H; unfold extract_class_name. apply N.eqb_neq in H; rewrite H.
+  change cbo_reads_value_field with true. destruct (is_plain r); reflexivity.
+Qed.
+
+Lemma should_include_ref_default : forall r, ref_ok r -> should_include_ref default_options r = negb (is_builtin r).
+Proof.
+  intros r H; unfold should_include_ref, is_builtin. destruct (is_plain r); [| reflexivity].
+  rewrite should_include_default by assumption. reflexivity.
+Qed.
+
 Lemma dep_of_name_In : forall r z, ref_ok r ->
   (In z (dep_of_name default_options r) <-> z = r /\ is_builtin r = false).
 Proof.
-  intros r z [Hp Hn]; unfold dep_of_name, extract_class_name, is_builtin; rewrite Hp.
-  rewrite should_include_default by assumption. rewrite plain_eq by assumption. simpl.
-  destruct (builtin_type (snd r) || builtin_function (snd r)); simpl; intuition; try discriminate; subst; auto.
+  intros r z H; unfold dep_of_name. rewrite extract_class_name_ok, should_include_ref_default by assumption.
+  destruct (is_builtin r); simpl; intuition; try discriminate; subst; auto.
 Qed.
 
-(* no generic on a side of a union: X | None, X | Y | Z are fine, List[X] | None is not *)
-Fixpoint flat_ty (t : ty) : bool :=
-  match t with
-  | TRef _ | TNone | TStr => true
-  | TUnion a b => flat_ty a && flat_ty b
-  | TGen1 _ _ | TGen2 _ _ _ => false
-  end.
-Fixpoint unions_flat (t : ty) : bool :=
-  match t with
-  | TGen1 _ a => unions_flat a
-  | TGen2 _ a b => unions_flat a && unions_flat b
-  | TUnion a b => flat_ty a && flat_ty b
-  | TRef _ | TNone | TStr => true
-  end.
-Definition ty_ok (t : ty) : Prop := Forall ref_ok (ty_refs t) /\ unions_flat t = true.
-(* no generic on a side of a union (List[X] | None): see C13_generic_in_union_refuted *)
-Definition unions_flat_class (c : class) : Prop :=
-  Forall (fun t => unions_flat t = true) (flat_map member_annotations (c_members c)).
-
-Lemma expr_deps_In : forall t z, flat_ty t = true -> Forall ref_ok (ty_refs t) ->
-  (In z (expr_annotation_deps default_options t) <-> In z (ty_refs t) /\ is_builtin z = false).
-Proof.
-  induction t; simpl; intros z F H; try discriminate; try tauto.
-  - inversion H; subst. rewrite dep_of_name_In by assumption. intuition; subst; auto.
-  - apply andb_true_iff in F as [F1 F2]. apply Forall_app in H as [H1 H2].
-    rewrite !in_app_iff, IHt1, IHt2 by assumption. tauto.
-Qed.
+Definition ty_ok (t : ty) : Prop := Forall ref_ok (ty_refs t).
 
 Lemma annotation_deps_In : forall t z, ty_ok t ->
   (In z (type_annotation_deps default_options t) <-> In z (ty_refs t) /\ is_builtin z = false).
 Proof.
-  induction t; simpl; intros z [H F]; simpl in *.
+  unfold ty_ok. induction t; simpl; intros z H.
   - inversion H; subst. rewrite dep_of_name_In by assumption. intuition; subst; auto.
-  - apply IHt; split; assumption.
-  - apply Forall_app in H as [H1 H2]. apply andb_true_iff in F as [F1 F2].
-    rewrite !in_app_iff, IHt1, IHt2 by (split; assumption). tauto.
-  - apply Forall_app in H as [H1 H2]. apply andb_true_iff in F as [F1 F2].
-    assert (In z (expr_annotation_deps default_options t1 ++ expr_annotation_deps default_options t2) <->
-            In z (ty_refs t1 ++ ty_refs t2) /\ is_builtin z = false) as X.
-    { rewrite !in_app_iff, !expr_deps_In by assumption. tauto. }
-    destruct t1; simpl in F1; try discriminate; exact X.
+  - apply IHt; assumption.
+  - apply Forall_app in H as [H1 H2]. rewrite !in_app_iff, IHt1, IHt2 by assumption. tauto.
+  - apply Forall_app in H as [H1 H2]. rewrite !in_app_iff, IHt1, IHt2 by assumption. tauto.
   - tauto.
   - tauto.
 Qed.
@@ -167,29 +156,46 @@ Lemma flat_map_flat_map : forall (A B C : Type) (f : A -> list B) (g : B -> list
   flat_map g (flat_map f l) = flat_map (fun a => flat_map g (f a)) l.
 Proof. induction l; simpl; auto. rewrite flat_map_app, IHl. reflexivity. Qed.
 
+(* a callee, plain or qualified *)
+Lemma call_dep_In : forall f r z, ref_ok r ->
+  (In z (call_dep default_options (collect_imports f) (f_classes f) r) <->
+   In z (filter (coupled_callee f) [r]) /\ is_builtin z = false).
+Proof.
+  intros f r z Hn. unfold call_dep. rewrite extract_class_name_ok by assumption.
+  rewrite collect_imports_bound. unfold coupled_callee. cbn [filter].
+  destruct (is_plain r) eqn:Hp.
+  - rewrite should_include_default by assumption. unfold default_options; simpl. rewrite orb_false_r.
+    unfold is_builtin.
+    destruct (mem (snd r) (bound_names f) || mem (snd r) (f_classes f)); simpl.
+    + destruct (builtin_type (snd r) || builtin_function (snd r)) eqn:E; simpl.
+      * split; [tauto|]. intros [[<- | []] H]. rewrite Hp, E in H; discriminate.
+      * split; [intros [<- | []]; rewrite Hp, E; auto | tauto].
+    + rewrite andb_false_r; simpl; tauto.
+  - unfold should_include_ref. rewrite Hp. simpl.
+    destruct (mem (fst r) (bound_names f)); simpl; [| tauto].
+    split; [intros [<- | []]; split; auto; unfold is_builtin; rewrite Hp; reflexivity | tauto].
+Qed.
+
 Lemma mention_dep_In : forall f m z,
-  match m_kind m with KInst r => ref_ok r /\ is_store_target (m_pos m) = false | _ => True end ->
+  match m_kind m with
+  | KInst r => ref_ok r /\ is_store_target (m_pos m) = false
+  | KCall obj x => ref_ok (Qual obj x) /\ is_store_target (m_pos m) = false
+  | KAttr _ _ => True
+  end ->
   (In z (mention_dep default_options (collect_imports f) (f_classes f) m) <->
    In z (filter (coupled_callee f) (instantiated m)) /\ is_builtin z = false).
 Proof.
-  intros f [k p sl] z; unfold mention_dep, instantiated; simpl. destruct k as [r | |]; simpl; try tauto.
-  intros [[Hp Hn] Hs]. rewrite expr_positions_reached_at by assumption.
-  unfold call_dep, coupled_callee. rewrite Hp, collect_imports_bound, should_include_default, plain_eq by assumption.
-  unfold default_options; simpl. rewrite orb_false_r.
-  unfold is_builtin.
-  destruct (mem (snd r) (bound_names f) || mem (snd r) (f_classes f)); simpl.
-  - destruct (builtin_type (snd r) || builtin_function (snd r)) eqn:E; simpl.
-    + split; [tauto|]. intros [[<- | []] H]. rewrite Hp, E in H; discriminate.
-    + split; [intros [<- | []]; rewrite Hp, E; auto | tauto].
-  - rewrite andb_false_r; simpl; tauto.
+  intros f [k p sl] z; unfold mention_dep, instantiated; simpl. destruct k as [r | | obj x]; simpl; try tauto.
+  - intros [Hn Hs]. rewrite expr_positions_reached_at by assumption. apply call_dep_In; assumption.
+  - intros [Hn Hs]. rewrite expr_positions_reached_at by assumption. apply call_dep_In; assumption.
 Qed.
 
-Theorem cbo_exact_partial : forall f c, plain_class c -> unions_flat_class c -> inst_positions_ok c ->
+Theorem cbo_exact : forall f c, named_class c -> inst_positions_ok c ->
   cbo_deps default_options f c = cbo_spec f c.
 Proof.
-  intros f c Hp Hu Hi. unfold cbo_deps, cbo_spec. apply set_of_ext. intros z.
+  intros f c Hp Hi. unfold cbo_deps, cbo_spec. apply set_of_ext. intros z.
   rewrite !filter_In. change (negb cbo_excludes_self) with false; rewrite orb_false_l.
-  unfold plain_class, class_refs in Hp. apply Forall_app in Hp as [Hb Hp]. apply Forall_app in Hp as [Ha Hm].
+  unfold named_class, class_refs in Hp. apply Forall_app in Hp as [Hb Hp]. apply Forall_app in Hp as [Ha Hm].
   unfold raw_deps, named_classes. rewrite !in_app_iff.
   (* bases *)
   assert (In z (analyze_inheritance default_options c) <-> In z (c_bases c) /\ is_builtin z = false) as ->.
@@ -202,10 +208,7 @@ Proof.
   { unfold analyze_type_hints. change members_reached with true; cbv iota.
     rewrite flat_map_flat_map.
     apply flat_map_In_ext with (P := fun z => is_builtin z = false) (Q := member_ok).
-    - apply Forall_flat_map in Ha.
-      assert (Forall ty_ok (flat_map member_annotations (c_members c))) as Hk.
-      { unfold unions_flat_class in Hu. rewrite Forall_forall in Ha, Hu |- *. intros t Ht. split; auto. }
-      apply Forall_flat_map in Hk. exact Hk.
+    - apply Forall_flat_map in Ha. apply Forall_flat_map. exact Ha.
     - intros m Hm'. apply member_type_hints_In; assumption. }
   (* instantiations *)
   assert (In z (analyze_instantiation default_options f c) <->
@@ -215,51 +218,62 @@ Proof.
                       flat_map (fun m => filter (coupled_callee f) (instantiated m)) l) as ->.
     { induction l; simpl; auto. rewrite filter_app, IHl; reflexivity. }
     apply flat_map_In_ext with (P := fun z => is_builtin z = false)
-      (Q := fun m => match m_kind m with KInst r => ref_ok r /\ is_store_target (m_pos m) = false | _ => True end).
+      (Q := fun m => match m_kind m with
+                     | KInst r => ref_ok r /\ is_store_target (m_pos m) = false
+                     | KCall obj x => ref_ok (Qual obj x) /\ is_store_target (m_pos m) = false
+                     | KAttr _ _ => True
+                     end).
     - unfold inst_positions_ok, class_mentions in *. apply Forall_flat_map in Hm.
       rewrite Forall_forall in *. intros m Hin. specialize (Hm m Hin). specialize (Hi m Hin).
-      unfold instantiated in Hm. destruct (m_kind m); auto. inversion Hm; auto.
+      unfold instantiated in Hm. destruct (m_kind m); auto; inversion Hm; auto.
     - intros m Hm'. apply mention_dep_In; assumption. }
   rewrite andb_true_iff, negb_true_iff. tauto.
 Qed.
 
-(* the defect that remains: a class referenced through its module is not counted *)
+(* the defects that were there (findings F29, F31): now instances of cbo_exact *)
 Definition w_file : file := File [ImpMod (nm "pkg")] [nm "K"].
 Definition w_base : class := Class (nm "K") [Qual (nm "pkg") (nm "Base")] [].
 Definition w_annot : class := Class (nm "K") [] [MAttr (nm "x") (TRef (Qual (nm "pkg") (nm "T")))].
 Definition w_inst : class :=
   Class (nm "K") [] [MMethod (Method (nm "run") [] [] None [Mention (KInst (Qual (nm "pkg") (nm "C"))) PBody])].
-
-Theorem cbo_qualified_refuted :
-  cbo_deps default_options w_file w_base = [] /\ cbo_spec w_file w_base = [Qual (nm "pkg") (nm "Base")] /\
-  cbo_deps default_options w_file w_annot = [] /\ cbo_spec w_file w_annot = [Qual (nm "pkg") (nm "T")] /\
-  cbo_deps default_options w_file w_inst = [] /\ cbo_spec w_file w_inst = [Qual (nm "pkg") (nm "C")].
+(* a class referenced through its module is listed under its dotted name *)
+Lemma cbo_qualified_counted :
+  cbo_deps default_options w_file w_base = [Qual (nm "pkg") (nm "Base")] /\ cbo_spec w_file w_base = [Qual (nm "pkg") (nm "Base")] /\
+  cbo_deps default_options w_file w_annot = [Qual (nm "pkg") (nm "T")] /\ cbo_spec w_file w_annot = [Qual (nm "pkg") (nm "T")] /\
+  cbo_deps default_options w_file w_inst = [Qual (nm "pkg") (nm "C")] /\ cbo_spec w_file w_inst = [Qual (nm "pkg") (nm "C")] /\
+  (* ... an instantiation only when the module is imported *)
+  cbo_deps default_options (File [] [nm "K"]) w_inst = [] /\ cbo_spec (File [] [nm "K"]) w_inst = [].
 Proof. vm_compute. repeat split; reflexivity. Qed.
 
-(* the other defect that remains: a generic on a side of a union *)
+(* a generic on either side of a union *)
 Definition w_union : class :=
-  Class (nm "K") [] [MAttr (nm "a") (TUnion (TGen1 (nm "List") (TRef (Plain (nm "X")))) TNone)].
-Theorem cbo_generic_in_union_refuted :
-  cbo_deps default_options (File [ImpFrom (nm "X")] [nm "K"]) w_union = [] /\
-  cbo_spec (File [ImpFrom (nm "X")] [nm "K"]) w_union = [Plain (nm "X")].
+  Class (nm "K") [] [MAttr (nm "a") (TUnion (TGen1 (nm "List") (TRef (Plain (nm "X")))) TNone);
+                     MAttr (nm "b") (TUnion (TRef (Plain (nm "Y"))) (TGen2 (nm "Dict") (TRef (Plain (nm "str"))) (TRef (Plain (nm "Z")))))].
+Lemma cbo_generic_in_union_counted :
+  cbo_deps default_options (File [ImpFrom (nm "X")] [nm "K"]) w_union = [Plain (nm "X"); Plain (nm "Y"); Plain (nm "Z")] /\
+  cbo_spec (File [ImpFrom (nm "X")] [nm "K"]) w_union = [Plain (nm "X"); Plain (nm "Y"); Plain (nm "Z")].
 Proof. vm_compute. split; reflexivity. Qed.
 
-(* hypotheses of cbo_exact_partial are satisfiable, with every form present *)
-Definition ex_file : file := File [ImpFrom (nm "X"); ImpFromAs (nm "Orig") (nm "Y")] [nm "L"; nm "K"].
+(* hypotheses of cbo_exact are satisfiable, with every form present *)
+Definition ex_file : file := File [ImpFrom (nm "X"); ImpFromAs (nm "Orig") (nm "Y"); ImpMod (nm "pkg"); ImpModAs (nm "package") (nm "pk")] [nm "L"; nm "K"].
 Definition ex_class : class :=
-  Class (nm "K") [Plain (nm "L"); Plain (nm "Exception")]
+  Class (nm "K") [Plain (nm "L"); Plain (nm "Exception"); Qual (nm "pkg") (nm "Base")]
     [MAttr (nm "a") (TGen2 (nm "Dict") (TRef (Plain (nm "str"))) (TUnion (TRef (Plain (nm "X"))) TNone));
+     MAttr (nm "b") (TUnion (TGen1 (nm "List") (TRef (Qual (nm "pk") (nm "T")))) TNone);
      MMethod (Method (nm "run") [] [Some (TRef (Plain (nm "Undefined")))] (Some (TGen1 (nm "List") (TRef (Plain (nm "K")))))
        [Mention (KInst (Plain (nm "Y"))) PFinally; Mention (KInst (Plain (nm "Y"))) PKeywordArg;
         Mention (KInst (Plain (nm "K"))) PBody; Mention (KInst (Plain (nm "len"))) PIfTest;
+        Mention (KInst (Qual (nm "pk") (nm "C"))) PWhileElse; Mention (KInst (Qual (nm "nomod") (nm "D"))) PBody;
+        Mention (KCall (nm "self") (nm "run")) PBody;
         Mention (KInst (Plain (nm "helper"))) PBody; Mention (KAttr (nm "self") (nm "x")) PAssignTarget])].
 Example cbo_exact_example :
-  plain_class ex_class /\ unions_flat_class ex_class /\ inst_positions_ok ex_class /\
-  cbo_deps default_options ex_file ex_class = [Plain (nm "L"); Plain (nm "X"); Plain (nm "Y"); Plain (nm "Undefined")].
+  named_class ex_class /\ inst_positions_ok ex_class /\
+  cbo_deps default_options ex_file ex_class =
+    [Plain (nm "L"); Plain (nm "X"); Plain (nm "Y"); Plain (nm "Undefined");
+     Qual (nm "pk") (nm "C"); Qual (nm "pk") (nm "T"); Qual (nm "pkg") (nm "Base")].
 Proof.
-  split; [| split; [| split]].
-  - unfold plain_class, ref_ok; vm_compute. repeat constructor; discriminate.
-  - unfold unions_flat_class; vm_compute. repeat constructor.
+  split; [| split].
+  - unfold named_class, ref_ok; vm_compute. repeat constructor; discriminate.
   - unfold inst_positions_ok; vm_compute. repeat constructor.
   - vm_compute. reflexivity.
 Qed.
@@ -334,9 +348,22 @@ Corollary cbo_idempotent : forall o f n bs l1 l2 md x, In x (md_body md) ->
   cbo_model o f (Class n bs (l1 ++ MMethod (Method (md_name md) (md_decos md) (md_params md) (md_ret md) (x :: md_body md)) :: l2)).
 Proof. intros. apply cbo_mentions_as_set. intros y; simpl; intuition; subst; auto. Qed.
 
-(* adding classes to the file that the class does not instantiate *)
+(* adding classes to the file that the class does not instantiate (by their bare name) *)
 Definition instantiated_names (c : class) : list name :=
-  map snd (flat_map instantiated (class_mentions c)).
+  map snd (filter is_plain (flat_map instantiated (class_mentions c))).
+Lemma extract_class_name_id : forall r r', extract_class_name r = Some r' -> r' = r.
+Proof.
+  intros r r'; unfold extract_class_name. destruct (snd r =? 0); [discriminate|].
+  destruct (is_plain r); [intros E; inversion E; reflexivity|].
+  destruct cbo_reads_value_field; intros E; inversion E; reflexivity.
+Qed.
+Lemma call_dep_add_class : forall o imports classes n r, (is_plain r = true -> snd r <> n) ->
+  call_dep o imports (n :: classes) r = call_dep o imports classes r.
+Proof.
+  intros o imports classes n r H. unfold call_dep. destruct (extract_class_name r) as [r'|] eqn:E; [| reflexivity].
+  apply extract_class_name_id in E; subst r'. destruct (is_plain r) eqn:Hp; [| reflexivity]. simpl.
+  assert (snd r =? n = false) as ->; [apply N.eqb_neq; auto | reflexivity].
+Qed.
 Theorem cbo_add_unrelated : forall o imps classes c n,
   ~ In n (instantiated_names c) ->
   cbo_model o (File imps (n :: classes)) c = cbo_model o (File imps classes) c.
@@ -348,15 +375,13 @@ Proof.
   unfold instantiated_names, class_mentions in Hn.
   change (collect_imports (File imps (n :: classes))) with (collect_imports (File imps classes)).
   induction (flat_map member_mentions (c_members c)) as [| m r IH]; simpl; [tauto|].
-  simpl in Hn. rewrite map_app, in_app_iff in Hn.
+  simpl in Hn. rewrite filter_app, map_app, in_app_iff in Hn.
   rewrite !in_app_iff, IH by tauto.
   assert (mention_dep o (collect_imports (File imps classes)) (n :: classes) m =
           mention_dep o (collect_imports (File imps classes)) classes m) as ->; [| tauto].
-  destruct m as [k p sl]; unfold mention_dep, instantiated in *; simpl in *. destruct k as [r0 | |]; auto.
-  match goal with |- context [if ?b then _ else _] => destruct b; auto end.
-  unfold call_dep. destruct (is_plain r0); auto. simpl.
-  assert (snd r0 =? n = false) as ->; [| reflexivity].
-  apply N.eqb_neq. intros E. apply Hn. left. simpl. auto.
+  destruct m as [k p sl]; unfold mention_dep, instantiated in *; simpl in *. destruct k as [r0 | | obj x]; auto;
+    (match goal with |- context [if ?b then _ else _] => destruct b; auto end);
+    apply call_dep_add_class; intros Hp; intros E; apply Hn; left; simpl; rewrite Hp; simpl; auto.
 Qed.
 
 (* one new distinct coupled class: the count grows by exactly one and the set by exactly that class *)
